@@ -2,6 +2,7 @@ package props
 
 import (
 	"fmt"
+	"go/token"
 	"sort"
 	"strings"
 
@@ -72,6 +73,30 @@ func c01rewrite(c *core.Ctx) {
 			noParse = append(noParse, np.Value())
 		}
 		bypass := an.SenseEdges(fn, noParse, an.IsTrue)
+		// on a write path the rewrite of RANDOM() and of the time functions is switched
+		// off by the caller's explicit flag only (never by the read level, the
+		// statement kind or anything else the endpoint knows)
+		for j, pc := range procs {
+			args := pc.Common().Args
+			if len(args) != 3 || name == "(*http.Service).runQueue" {
+				continue
+			}
+			flagOnly := func(v ssa.Value, getter string) bool {
+				if b, ok := an.ConstBool(v); ok {
+					return b
+				}
+				u, ok := v.(*ssa.UnOp)
+				if !ok || u.Op != token.NOT {
+					return false
+				}
+				call, ok := u.X.(*ssa.Call)
+				return ok && an.IsCall(call, "http.QueryParams."+getter)
+			}
+			c.Sites++
+			c.Result(flagOnly(args[1], "NoRewriteRandom") && flagOnly(args[2], "NoRewriteTime"), "C01.a", "CONST", fmt.Sprintf("%s:Process#%d:rewrite-flags", name, j+1), c.P.Pos(pc.Pos()),
+				"RANDOM() and time rewriting on this write path is disabled only by the request's norwrandom / norwtime flags",
+				name+" hands statements to replication but makes the RANDOM()/time rewrite depend on something other than the request's explicit norwrandom/norwtime flags (e.g. the read consistency level): a write sent with the other setting reaches the log unrewritten and every node evaluates it itself", nil)
+		}
 		for i, s := range ss {
 			sinks++
 			c.Sites++
